@@ -423,6 +423,17 @@ func (in *Interp) fmtOperandM(v Value, verb byte, sharp bool, methods bool) ([]*
 	if verb == 'T' {
 		return in.mkStr(typeString(iv.t)).b, true
 	}
+	if verb == 'v' && sharp && methods {
+		if m := in.lookupMethod(iv.t, nil, "GoString"); m != nil && m.Signature.Params().Len() == 0 && m.Signature.Results().Len() == 1 {
+			if p, isPtr := iv.v.(PtrV); isPtr && p.isNil() {
+				return in.mkStr("<nil>").b, true
+			}
+			return in.callFn(m, []Value{iv.v}, nil).(StrV).b, true
+		}
+		// Go-syntax formatting of arbitrary values is outside the model: debug text only
+		in.approxFmt++
+		return in.mkStr("(" + typeString(iv.t) + ")<go-syntax>").b, true
+	}
 	// error / Stringer take precedence for %v %s
 	if verb == 'v' || verb == 's' || verb == 'q' {
 		if !sharp && methods {
@@ -505,6 +516,36 @@ func (in *Interp) fmtOperandM(v Value, verb byte, sharp bool, methods bool) ([]*
 				}
 				return append(in.mkStr("&").b, fb...), true
 			}
+		}
+	case *types.Array, *types.Slice:
+		if verb == 'v' && !sharp {
+			var elems []Value
+			var et types.Type
+			if at, ok := u.(*types.Array); ok {
+				elems, et = iv.v.(*ArrayV).e, at.Elem()
+			} else {
+				sv := iv.v.(SliceV)
+				elems, et = in.sliceElems(sv), u.(*types.Slice).Elem()
+				if bt, ok := et.Underlying().(*types.Basic); ok && bt.Kind() == types.Uint8 {
+					return nil, false // []byte prints as numbers: not modelled
+				}
+			}
+			out := in.mkStr("[").b
+			for i, e := range elems {
+				if i > 0 {
+					out = append(out, in.tt.b8[' '])
+				}
+				ev := IfaceV{t: et, v: e}
+				if _, isIface := et.Underlying().(*types.Interface); isIface {
+					ev = e.(IfaceV)
+				}
+				fb, ok := in.fmtOperandM(ev, 'v', false, methods)
+				if !ok {
+					return nil, false
+				}
+				out = append(out, fb...)
+			}
+			return append(out, in.tt.b8[']']), true
 		}
 	case *types.Struct:
 		if verb == 'v' && !sharp {
@@ -614,7 +655,47 @@ func iFmtFprintln(in *Interp, fn *ssa.Function, a []Value) Value {
 	return TupleV{n, err}
 }
 
+// sprintfSymbolic handles a format string with symbolic bytes when there are no operands: every
+// '%' starts a verb without operand, which fmt renders as %!c(MISSING) ("%%" as "%", a trailing
+// '%' as %!(NOVERB)); flags, widths and multi-byte verbs are outside the model.
+func (in *Interp) sprintfSymbolic(f StrV) []*Term {
+	var out []*Term
+	for i := 0; i < len(f.b); i++ {
+		b := f.b[i]
+		if !in.branch(in.tt.Bin(OpEq, b, in.tt.b8['%'])) {
+			out = append(out, b)
+			continue
+		}
+		if i+1 >= len(f.b) {
+			out = append(out, in.mkStr("%!(NOVERB)").b...)
+			continue
+		}
+		c := f.b[i+1]
+		i++
+		if in.branch(in.tt.Bin(OpEq, c, in.tt.b8['%'])) {
+			out = append(out, in.tt.b8['%'])
+			continue
+		}
+		for _, fl := range []byte(" #+-.[*") {
+			if in.branch(in.tt.Bin(OpEq, c, in.tt.b8[fl])) {
+				in.unsupported("fmt: flag in symbolic format string")
+			}
+		}
+		if in.byteIn(c, '0', '9') || !in.branch(in.tt.Bin(OpUlt, c, in.tt.b8[0x80])) {
+			in.unsupported("fmt: width or multi-byte verb in symbolic format string")
+		}
+		out = append(out, in.mkStr("%!").b...)
+		out = append(out, c)
+		out = append(out, in.mkStr("(MISSING)").b...)
+	}
+	return out
+}
+
 func iFmtFprintf(in *Interp, fn *ssa.Function, a []Value) Value {
+	if _, concrete := concreteString(a[1].(StrV)); !concrete && len(in.variadic(a[2])) == 0 {
+		n, err := in.callWrite(a[0], in.sprintfSymbolic(a[1].(StrV)))
+		return TupleV{n, err}
+	}
 	bs, ok := in.sprintf(in.concreteStr(a[1], "format"), in.variadic(a[2]))
 	if !ok {
 		in.unsupported("fmt.Fprintf format outside the model")
@@ -624,6 +705,9 @@ func iFmtFprintf(in *Interp, fn *ssa.Function, a []Value) Value {
 }
 
 func iFmtSprintf(in *Interp, fn *ssa.Function, a []Value) Value {
+	if _, concrete := concreteString(a[0].(StrV)); !concrete && len(in.variadic(a[1])) == 0 {
+		return StrV{b: in.sprintfSymbolic(a[0].(StrV))}
+	}
 	f := in.concreteStr(a[0], "format")
 	bs, ok := in.sprintf(f, in.variadic(a[1]))
 	if !ok {
